@@ -145,9 +145,23 @@ def _grid_hypotheses(ctx, groups):
     return res
 
 
+def _start_search(ctx, strength):
+    """The failing-input search runs in its own process, concurrently with the correspondence."""
+    import threading
+    box = {}
+
+    def work():
+        box["res"] = ctx.run_impl("c09_impl.py", {"strength": strength, "parts": ["search"]}, timeout=3000)
+
+    t = threading.Thread(target=work)
+    t.start()
+    ctx.search_job = (t, box, strength)
+
+
 def correspond(ctx):
     strength = "thorough" if ctx.tier == "thorough" else "quick"
-    res = ctx.run_impl("c09_impl.py", {"strength": strength, "parts": ["corr", "search"]}, timeout=3000)
+    _start_search(ctx, strength)
+    res = ctx.run_impl("c09_impl.py", {"strength": strength, "parts": ["corr"]}, timeout=3000)
     if res is None:
         return
     ctx.impl = res
@@ -176,8 +190,9 @@ def correspond(ctx):
         hist["group " + g["name"]] = len(g["cases"])
     ctx.corr["distinct_nontrivial"] = nontrivial
     ctx.corr["histogram"] = hist
-    ctx.corr["rule"] = ("function spaces built through bempp_cl.api.function_space on every non-empty sub-complex of an "
-                        "octahedron and (quick: a seeded third, thorough: all) of a 2x2 screen as support_elements x {P1, RWG} "
+    ctx.corr["rule"] = ("function spaces built through bempp_cl.api.function_space on the non-empty sub-complexes of an "
+                        "octahedron (quick: a seeded half, thorough: all 255) and of a 2x2 screen (quick: a third, thorough: "
+                        "all 255) as support_elements x {P1, RWG} "
                         "x 4 flag combinations, a seeded sixth (thorough: all) for DP0/DP1/SNC, segment subsets of five "
                         "multi-domain grids with swapped normals, a non-manifold fan, random soups; compared: local2global, "
                         "local_multipliers, support, normal_multipliers, global_dof_count, the builder's own dof count, "
@@ -195,10 +210,14 @@ def correspond(ctx):
 
 
 def search(ctx, strength):
-    res = getattr(ctx, "impl", None)
-    if res is None or "search" not in res or (strength == "thorough" and ctx.tier != "thorough"):
-        r2 = ctx.run_impl("c09_impl.py", {"strength": strength, "parts": ["search"]}, timeout=3000)
-        res = r2 or res
+    job = getattr(ctx, "search_job", None)
+    res = None
+    if job is not None:
+        job[0].join()
+        if job[2] == strength:
+            res = job[1].get("res")
+    if res is None:
+        res = ctx.run_impl("c09_impl.py", {"strength": strength, "parts": ["search"]}, timeout=3000)
     if res is None or "search" not in res:
         return
     s = res["search"]
